@@ -639,6 +639,11 @@ BODIES = [
     ("PFC_decodeNextString", "StringDictionaryPFC.cpp", "StringDictionaryPFC::decodeNextString", 0),
     ("PFC_ctor", "StringDictionaryPFC.cpp", "StringDictionaryPFC::StringDictionaryPFC", 1),
     ("LogSequence_vector_ctor", "utils/LogSequence.cpp", "LogSequence::LogSequence", 2),
+    ("PFC_locatePrefix", "StringDictionaryPFC.cpp", "StringDictionaryPFC::locatePrefix", 0),
+    ("PFC_locateBoundaryBuckets", "StringDictionaryPFC.cpp", "StringDictionaryPFC::locateBoundaryBuckets", 0),
+    ("PFC_searchPrefix", "StringDictionaryPFC.cpp", "StringDictionaryPFC::searchPrefix", 0),
+    ("PFC_searchDistinctPrefix", "StringDictionaryPFC.cpp", "StringDictionaryPFC::searchDistinctPrefix", 0),
+    ("longestCommonPrefix", "utils/Utils.h", "longestCommonPrefix", 0),
     ("PFC_save", "StringDictionaryPFC.cpp", "StringDictionaryPFC::save", 0),
     ("PFC_load", "StringDictionaryPFC.cpp", "StringDictionaryPFC::load", 0),
     ("RG_rank1", "libcds/src/bitsequence/BitSequenceRG.cpp", "BitSequenceRG::rank1", 0),
